@@ -153,8 +153,8 @@ def query (c : Coll) (q : String) : String :=
   match q.toList with
   | ['N'] => showEntries (taskNames c)
   | ['P'] => if parserOk c then "ok" else "dup"
-  | ['F'] => ";".intercalate (sortStr ((flatPairs c []).map showFlatEntry))
-  | ['T'] => ";".intercalate (sortStr ((nestedPairs c []).map showNLine))
+  | ['F'] => ";".intercalate (sortStr ((flatListing c).map showFlatEntry))
+  | ['T'] => ";".intercalate (sortStr ((nestedListing c).map showNLine))
   | ['J'] => showJ (serialized c)
   | ['W'] => if wf c then "1" else "0"
   | ['U'] => if uniformDash c.autoDash c then "1" else "0"
